@@ -328,6 +328,7 @@ class Model:
                 self.fn_depth -= 1
             return
         bound: list = []
+        lists: list = []
         try:
             for scope, name, e in n["define"]:
                 if e["k"] == "marker":
@@ -338,7 +339,11 @@ class Model:
                         self.mlocals[name] = e["s"]
                     continue
                 if e["k"] == "lit" and name.startswith("L"):
-                    self.lists[name] = 0        # a fresh list at this reach
+                    # a fresh list at this reach; the name is bound for
+                    # this element only (a nested invocation of the same
+                    # macro has a list of its own)
+                    lists.append((name, self.lists.get(name)))
+                    self.lists[name] = 0
                 self.ev(e)
             self._element_rest(n, switch_state)
         except BaseException:
@@ -349,6 +354,12 @@ class Model:
             raise
         else:
             self._restore(bound)
+        finally:
+            for name, old in reversed(lists):
+                if old is None:
+                    self.lists.pop(name, None)
+                else:
+                    self.lists[name] = old
 
     def _restore(self, bound: list) -> None:
         for name, old in reversed(bound):
